@@ -51,6 +51,29 @@ def nontrivial(prop, run):
     return True
 
 
+def suite_disagreement(run):
+    """Differential self-check of M against a port of the repository's own
+    reference executor (tests/test_validity.py): if that executor rejects
+    the stream (up to the first EndReverse), M must have rejected it too."""
+    from .suite_exec import suite_accepts
+    M = run.machine
+    if M is None or not run.actions:
+        return None
+    info = M.info
+    lim = {D.RAM: None if info.b_ram == D.INF else info.b_ram,
+           D.DISK: None if info.b_disk == D.INF else info.b_disk}
+    data_limit = run.cfg.N if info.multi_deps else 1
+    ok, msg = suite_accepts(D.API, run.actions, run.cfg.N, lim, data_limit,
+                            run.was_final)
+    if ok:
+        return None
+    end = next((i for i, a in enumerate(run.actions)
+                if isinstance(a, D.API.EndReverse)), len(run.actions))
+    if any(f.index <= end for f in run.failures):
+        return None
+    return msg
+
+
 def make_reducer(prop):
     def red(run):
         M = run.machine
@@ -64,6 +87,7 @@ def make_reducer(prop):
             "construct_exc": run.construct_exc,
             "fail": None,
             "nfail": len(fails),
+            "suite": suite_disagreement(run) if prop == "C01" else None,
         }
         if first is not None:
             out["fail"] = {"props": list(first.props), "code": first.code,
@@ -86,6 +110,49 @@ def merge_orders(outs):
             pick["transitions"] = sum(o["transitions"] for o in lst)
         merged.append(pick)
     return merged
+
+
+def optimized_pass(prop, tier):
+    """The same library, imported by an interpreter started with -O (asserts
+    stripped): a small box is driven there and the failures tagged `prop`
+    come back as JSON.  (A side effect hidden in an assert statement only
+    shows in such an interpreter.)"""
+    import json
+    import os
+    import subprocess
+    import sys
+    code = ("import sys, json; sys.path.insert(0, %r); "
+            "from vf import props_stream as P; "
+            "print('OPT ' + json.dumps(P.small_box_failures(%r, %r)))"
+            % (common.VERIF_DIR, prop, tier))
+    env = dict(os.environ, PYTHONHASHSEED="0", VERIF_REPO=common.REPO,
+               VERIF_JOBS="4")
+    p = subprocess.run([sys.executable, "-O", "-c", code], env=env, text=True,
+                       capture_output=True, timeout=1800)
+    line = [x for x in p.stdout.splitlines() if x.startswith("OPT ")]
+    if not line:
+        return None, p.stderr[-600:]
+    return json.loads(line[-1][4:]), None
+
+
+def small_box_failures(prop, tier):
+    """Runs inside the -O interpreter."""
+    import sys
+    N = 10 if tier == "quick" else 16
+    cfgs = D.box(N, "quick")
+    out = D.run_box(cfgs, make_reducer(prop))
+    bad = []
+    for cfg, o in zip(cfgs, out):
+        if o["fail"] is not None and len(bad) < 20:
+            bad.append({"config": cfg.as_json(), "failure": o["fail"]})
+        elif not o["built"] and len(bad) < 20:
+            bad.append({"config": cfg.as_json(),
+                        "failure": {"code": "construction_failed_under_O",
+                                    "msg": str(o["construct_exc"]),
+                                    "index": -1, "action": "", "props": [],
+                                    "trace": []}})
+    return {"optimize_flag": sys.flags.optimize, "configs": len(cfgs),
+            "transitions": sum(o["transitions"] for o in out), "bad": bad}
 
 
 def sample_of(cfg):
@@ -113,6 +180,11 @@ def check(prop, tier):
         res.add(traces_validated_against_impl=1)
         if o["nontriv"]:
             nontriv += 1
+        if o.get("suite"):
+            res.harness_error(f"M accepted {cfg!r} but the repository's own "
+                              f"reference executor rejects it: {o['suite']}")
+        elif prop == "C01":
+            res.count("streams_cross_checked_with_suite_executor")
         if o["fail"] is not None:
             f = o["fail"]
             key = {"cls": cfg.cls, "code": f["code"]}
@@ -129,6 +201,27 @@ def check(prop, tier):
                 rp = None
             res.violation(key, f"{cfg!r}: [{f['code']}] {f['msg']} at action "
                                f"{f['index']} {f['action']}", rp)
+    # ---- the same box (small) under `python -O`
+    opt, err = optimized_pass(prop, tier)
+    if opt is None or opt.get("optimize_flag", 0) < 1:
+        res.harness_error(f"-O pass did not run: {err}")
+    else:
+        res.add(evaluations=opt["configs"], transitions=opt["transitions"],
+                traces_validated_against_impl=opt["configs"])
+        res.counters["configs_driven_under_python_O"] = opt["configs"]
+        for b in opt["bad"]:
+            cfg = D.Config.from_json(b["config"])
+            f = b["failure"]
+            if f["code"] == "construction_failed_under_O" and \
+                    prop not in ("C17", "C01", "C02"):
+                continue
+            key = {"cls": cfg.cls, "code": f["code"], "interpreter": "-O"}
+            rp = common.write_replay(prop, f"{cfg.cls}_{f['code']}_optimized", {
+                "property": prop, "kind": "stream", "config": cfg.as_json(),
+                "failure": f, "interpreter_flags": "-O"})
+            res.violation(key, f"{cfg!r} under python -O: [{f['code']}] "
+                               f"{f['msg']} at action {f['index']} "
+                               f"{f['action']}", rp)
     res.cov["distinct_nontrivial"] = nontriv
     res.cov["rule"] = ("every configuration of the box B(N) (DESIGN section 2) "
                        "is driven through the real generator and replayed "
@@ -152,6 +245,20 @@ def check(prop, tier):
 
 
 def replay(prop, payload):
+    import sys
+    if payload.get("interpreter_flags") == "-O" and sys.flags.optimize < 1:
+        import json
+        import os
+        import subprocess
+        import tempfile
+        with tempfile.NamedTemporaryFile("w", suffix=".json",
+                                         delete=False) as f:
+            json.dump(payload, f)
+        r = subprocess.run([sys.executable, "-O",
+                            os.path.join(common.VERIF_DIR, "check"), prop,
+                            "--replay", f.name])
+        os.unlink(f.name)
+        return r.returncode
     cfg = D.Config.from_json(payload["config"])
     run = D.drive(cfg)
     fails = [f for f in run.all_failures() if prop in f.props]
